@@ -48,6 +48,8 @@ pub(crate) struct Outcome {
     pub violation: Option<Violation>,
     pub status: Status,
     pub cov_keys: Vec<u64>,
+    /// hashes of abstract (reference-model) states visited
+    pub state_keys: Vec<u64>,
     pub counters: BTreeMap<String, u64>,
     pub digest: u64,
     pub steps: u64,
@@ -62,6 +64,7 @@ impl Outcome {
             violation: None,
             status: Status::Ok,
             cov_keys: vec![],
+            state_keys: vec![],
             counters: BTreeMap::new(),
             digest: 0,
             steps: 0,
@@ -297,6 +300,7 @@ pub(crate) fn abbreviate(t: &Trace, max_actions: usize) -> Value {
 pub(crate) struct BatchResult {
     pub evaluations: u64,
     pub cov: HashSet<u64>,
+    pub states: HashSet<u64>,
     pub counters: BTreeMap<String, u64>,
     pub steps: u64,
     pub vt_ms: u64,
@@ -364,6 +368,7 @@ pub(crate) fn run_batch(check: Arc<dyn Check>, seed: u64, tier: Tier, runs: u64,
     let mut res = BatchResult {
         evaluations: 0,
         cov: HashSet::new(),
+        states: HashSet::new(),
         counters: BTreeMap::new(),
         steps: 0,
         vt_ms: 0,
@@ -381,6 +386,9 @@ pub(crate) fn run_batch(check: Arc<dyn Check>, seed: u64, tier: Tier, runs: u64,
         res.evaluations += 1;
         for k in &out.cov_keys {
             res.cov.insert(*k);
+        }
+        for k in &out.state_keys {
+            res.states.insert(*k);
         }
         for (k, n) in &out.counters {
             *res.counters.entry(k.clone()).or_insert(0) += n;
@@ -579,6 +587,8 @@ pub(crate) fn run_check(check: Arc<dyn Check>, tier: Tier, seed: u64, jobs: usiz
             "rule": check.rule(),
             "samples": res.samples,
             "directed_scenarios": n_directed,
+            "states": res.states.len(),
+            "states_measure": "distinct abstract states of the reference model (users with modes/away/channels, channels with members+ranks/flags/key/limit/mask lists, connection registration progress) visited at step boundaries; 0 for checks without a model",
             "steps": res.steps,
             "virtual_seconds_simulated": res.vt_ms / 1000,
             "runs_per_hour": if wall > 0.0 { (evals as f64 / wall * 3600.0) as u64 } else { 0 },
